@@ -41,7 +41,7 @@ func (f *V5FS) MustRMAll(path string) {
 	if f.Hook {
 		sched.Point(sched.KFS, nil, "MustRMAll")
 	}
-	f.RM[path]++
+	sched.Own(func() { f.RM[path]++ })
 	f.FileSystem.MustRMAll(path)
 }
 
